@@ -446,3 +446,58 @@ def units(prop, tier):
         for nm, mode in (('det', "enum('deterministic-rfc6979')"), ('fips', "enum('fips-186-3')"), ('other', 'str')):
             out.append(u('sig.dss.new.%s.%s' % (kt, nm), [D + 'new'], DET, kt, new_mode=mode))
     return out
+
+
+# ================================================================ status
+# FINDING (natively confirmed, obligation left registered: C04.Signature.DSS.DeterministicDsaSigScheme._int2octets.raises_only.AssertionError)
+#   DeterministicDsaSigScheme._int2octets(0) raises AssertionError (`assert 0 < int_mod_q < self._order`); RFC 6979 2.3.3 / 2.3.4
+#   define int2octets for every 0 <= x < q and bits2octets yields z2 = 0 when bits2int(H(m)) is 0 or q.  Reached from
+#   DSS.new(key, 'deterministic-rfc6979').sign(h) for a hash object whose digest has bits2int(digest) in {0, q}
+#   (native: s._int2octets(Integer(0)), s._bits2octets(bytes(32)), s.sign(<object whose digest() is 32 zero bytes>) -> AssertionError).
+# OBSERVATION (stated exactly in the contracts, not a violation of the property): DsaKey._sign refuses k == 1 although FIPS 186-4 B.2
+#   admits k in [1, q-1]; DSS sign() in FIPS mode with a DSA key therefore raises ValueError when the drawn nonce is 1 (probability 1/(q-1)).
+#
+# NOT PROVED: DeterministicDsaSigScheme._bits2octets for symbolic (bit length of q, len(bstr)): "z1 - q < q" needs 2^(qlen-1) <= q and
+#   bits2int(b) < 2^qlen, i.e. 2^(a+b) = 2^a 2^b for symbolic exponents; proved per value for the standard size pairs (units
+#   sig.dss.rfc6979.bits2octets.q*.h*: 5 pairs quick, all 25 pairs thorough), unbounded in the data.
+# NOT PROVED: EccKey._sign / DsaKey._sign  s == k^-1 (z + d r) mod q  (the contracts state the blinded expression the code evaluates and
+#   0 <= r, s < q); the algebraic lemma _verify(z, _sign(z, k)) (DESIGN C04, P1) needs modular-inverse and group-law lemma instances.
+# NOT PROVED: DSS.new for a key that is neither EccKey, DsaKey nor None (`str(type(key))` of an arbitrary object is outside the subset).
+# ASSUMED: see sig_common.py; here in addition DerSequence (decode / __len__ / hasOnlyInts / __getitem__ / encode: C13 asn1 area),
+#   Crypto.Hash.HMAC.new(...).digest() == spec.rfc6979.hmac (C03), `map(int, (r, s))` represented eagerly as a tuple in DsaKey._sign,
+#   one ground instance of "units modulo a prime are closed under multiplication" per blinded inverse (sig_common.model_inverse).
+#
+# MUTANTS (tools/mut.py; exit 1 = caught, obligation that caught it)
+#   DSS.py verify: `0 < r_prime < self._order` -> `<=`                          exit 1  verify.raises_iff.ValueError.if + call_pre of EccKey._verify
+#   DSS.py verify: decode(signature, strict=True) -> strict=False               exit 1  verify.call_pre.strict (assumed DerSequence.decode)
+#   DSS.py verify: `len(signature) != (2 * ...)` -> `<`                         exit 1  verify.raises_iff.ValueError.if
+#   DSS.py verify: `len(der_seq) != 2` -> `< 2`                                 exit 1  verify.raises_iff.ValueError.if
+#   DSS.py verify: `if not result:` -> `if result is None:`                     exit 1  verify.raises_iff.ValueError.if
+#   DSS.py verify: _valid_hash check removed (FIPS schemes)                     exit 1  verify.raises_iff.ValueError.if
+#   DSS.py sign: digest()[:order_bytes] -> [:order_bytes - 1]                   exit 1  sign.ensures.encoding
+#   DSS.py sign: has_private check removed                                      exit 1  sign.call_pre (self._private_key is not None)
+#   DSS.py sign: binary output order swapped (sig_pair[::-1])                   exit 1  sign.ensures.encoding
+#   DSS.py sign: msg_hash.update(b'x') inserted (C19)                           exit 1  sign.modifies.<msg_hash>.g_data
+#   DSS.py _bits2int: shift b_len - q_len -> + 1                                exit 1  _bits2int.ensures.rfc6979_2_3_2
+#   DSS.py _bits2octets: `z1 < self._order` -> `<=`                             exit 1  _bits2octets.call_pre of _int2octets
+#   DSS.py _bits2octets: `z2 = z1 - self._order` -> `z2 = z1`                   exit 2  (engine: a call_pre violated on every model of the path is
+#                                                                                        reported as "contract cannot be satisfied"; reported to main)
+#   DSS.py _compute_nonce: (b'\x00', b'\x01') swapped                           exit 1  _compute_nonce.loop_inv_entry (first candidate state)
+#   DSS.py _compute_nonce: retry `mask_v + b'\x00'` -> b'\x01'                  exit 1  _compute_nonce.loop_inv_entry (inner loop)
+#   DSS.py _compute_nonce: `len(mask_t) < order_bytes` -> `<=`                  exit 1  _compute_nonce.loop_inv_preserved
+#   DSS.py _compute_nonce: `0 < nonce` -> `0 <= nonce`                          exit 1  _compute_nonce.ensures.rfc6979_3_2 / range
+#   DSS.py Fips*._compute_nonce: min_inclusive=1 -> 0                           exit 1  _compute_nonce.ensures.value / range
+#   DSS.py FipsEcDsa._compute_nonce: randfunc argument dropped                  exit 1  _compute_nonce.ensures.value / entropy (C18)
+#   DSS.py FipsDsa table (2048, 224) -> (2048, 225)                             exit 1  FipsDsaSigScheme.__init__.raises_iff
+#   DSS.py FipsEcDsa._valid_hash: one OID dropped                               exit 1  _valid_hash.ensures.value
+#   DSS.py FipsDsa._valid_hash: SHA-1 OID changed                               exit 1  _valid_hash.ensures.value
+#   DSS.py new(): ('binary', 'der') -> ('binary',)                              exit 1  new.raises_iff.ValueError.only_if
+#   DSS.py new(): `if key.has_private()` negated                                exit 1  new.ensures.invariant / raises_only.AttributeError
+#   DSS.py new(): startswith("NIST") -> startswith("N")                         exit 0  (equivalent on the set of canonical curve names)
+#   DSS.py __init__: order_bytes = order_bits // 8 + 1                          exit 1  __init__.ensures.bytes
+#   ECC.py _sign: r without `% order`; blind from [0, n); blind_d = d           exit 1  _sign.ensures.r / raises_only.ValueError / ensures.s_blinded
+#   ECC.py _verify: (sinv * rs[0]) -> rs[1]; G replaced by pointQ; no `% order` exit 1  _verify.ensures.sec1_4_1_4
+#   DSA.py _sign: `1 < k` -> `0 < k`; pow(g, k, p) -> pow(g, k, q); blind range exit 1  _sign.raises_iff / ensures.r / ensures.s_blinded (C18)
+#   DSA.py _verify: u1/u2 swapped; final `% q` dropped; `0 < s` -> `0 <= s`      exit 1  _verify.ensures.fips186_4_7 (+ raises_only.ValueError)
+#   benign: rename `result` -> `outcome` in verify; `w` -> `winv` in DsaKey._verify; `sinv` -> `s_inv` in EccKey._verify;
+#           extra local in _compute_nonce                                       exit 0
